@@ -422,4 +422,8 @@ class Module:
         for t in self.ditypes:
             if t["name"] == name:
                 return t
+        if name.startswith("anon@"):
+            for t in self.ditypes:
+                if not t["name"] and "anon@%d:%d" % (t["file"], t["line"]) == name:
+                    return t
         return None
